@@ -113,7 +113,8 @@ theorem handleLogon_pool {c : Ctx} (hc : CtxOK c) {s : Sess} (hs : s.cfg = c.cfg
     rw [← hs1]; split
     · exact Eff.emit s _ (by intro _; simp)
     · exact Eff.refl s
-  rw [verifyAppImpl_pass s1 _ (pf_noEmpty hc hw), pf_cb hc hw]
+  have hcfg1 : s1.cfg = c.cfg := by rw [← hs1]; split <;> exact hs
+  rw [verifyAppImpl_pass s1 _ (pf_valid hc hcfg1 hw), pf_cb hc hw]
   simp only []
   have e2 : Eff s (s1.emit (cbObs s1 (toIn c.pcfg m))) 0 [] s.toSend := by
     have := e1.trans (Eff.emit s1 (cbObs s1 (toIn c.pcfg m)) (by
